@@ -297,7 +297,7 @@ public:
   String& replace(char needle, char replacement)
   {
     detach(data->len, data->len);
-    for (char* str = (char*)data->str; *str; ++str)
+    for (char* str = (char*)data->str, * end = str + data->len; str < end; ++str)
       if(*str == needle)
         *str = replacement;
     return *this;
@@ -336,7 +336,7 @@ public:
   String& toLowerCase()
   {
     detach(data->len, data->len);
-    for (char* str = (char*)data->str; *str; ++str)
+    for (char* str = (char*)data->str, * end = str + data->len; str < end; ++str)
       *str = lowerCaseMap[*(uchar*)str];
     return *this;
   }
@@ -344,7 +344,7 @@ public:
   String& toUpperCase()
   {
     detach(data->len, data->len);
-    for (char* str = (char*)data->str; *str; ++str)
+    for (char* str = (char*)data->str, * end = str + data->len; str < end; ++str)
       *str = upperCaseMap[*(uchar*)str];
     return *this;
   }
